@@ -12,837 +12,838 @@ Definition show_fres (r : fres) : string :=
   end.
 Definition check (rs : list rune) : string := digest (show_fres (format_res rs)).
 Definition full (rs : list rune) : string := show_fres (format_res rs).
-Eval vm_compute in ("<<<M146>>>" ++ check (runes_of_ascii "MetaData
-chars {	int8 Z9_,	float rootA	`tab	here`// @lengthOf(
-,
-//x
-// @lengthOf(
-T o `it's` ,
-roots int , // c
-repeatCount MetaDataX, float32
-    falsey `say ""hi""`,} packet
-    msg_type
-{ repeat f32
-o // `tick` ""quote"" 'q'
-, @tag( 0
-)char[]  A	,  repeat char[] tag `say ""hi""` ,repeat char[ 0 ] Z9_ ,
-zchar[ 1 ] lengthOf ,
-i64 T , match float as
-leftPad {
-    007 : len /// triple
-, ""it's"" : len
-    , ""it's"" : // @lengthOf(
-float
-    [ 255 ,
-00
-, ""abc"", ""abc""
-,
-1
-, """ ++ [28040; 24687]%N ++ runes_of_ascii """ // `tick` ""quote"" 'q'
-, ""x y"" , """" // a // b
-] :	_x ,
-    """" : len ,""\" ++ [233]%N ++ runes_of_ascii """  : // a // b
-i64_
-, //	t
-}, roots{ char[ 1
-]// @lengthOf(
+Eval vm_compute in ("<<<M5>>>" ++ check (runes_of_ascii "MetaData  asx {char[] MetaDataX ,
+lengthOf Z9_	, crc
+    Foo ,char[ 4294967296]
+BodyLength , Foo leftPad `doc`, tag // a // b
+u128 , } root packet
+    stringy { // trailing space 
+match Header as
+    repeatCount	{ [ ""{,}""] :
 Header
-@lengthOf( x_y_z )
-    , body u128 , // `tick` ""quote"" 'q'
-char[]
-float ,chars@lengthOf( x  )
-    `doc` ,}
-,
-    crc `it's`
-    // `tick` ""quote"" 'q'
-    , @calculatedFrom(""" ++ [128512]%N ++ runes_of_ascii """
-    )
-    BodyLength `" ++ [28040; 24687; 31867; 22411]%N ++ runes_of_ascii "` , }
-    packet
-    u128{  lengthOf ,pack
-@lengthOf( u8x// c
-)`// not a comment`// " ++ [27880; 37322]%N ++ runes_of_ascii "
-,@leftPad
-    (
-' ' ) float{match
-    asx as
-    charz
-{ [ 4294967296,""""
-, 255 ,42
-    ,""1""  ] : u8x ""{,}""	: Foo 42  :
-leftPad[ // trailing space 
-255 ,
-    // " ++ [128512]%N ++ runes_of_ascii " emoji
-    ""a\""b"" , ""it's""  , 4294967296 ] : stringy , 3
-:Header ,
-} ,match o // `tick` ""quote"" 'q'
-as
-    Pad
-    // trailing space 
-    { 3 :
-    i64_//x
-, } ,repeat
-    string msg_type ,
-    match
-packetx // " ++ [27880; 37322]%N ++ runes_of_ascii "
-as
-lengthOf
-    { [ ""x y"","""" ]
-:x_y_z
-// " ++ [27880; 37322]%N ++ runes_of_ascii "
-// c
-}, } ,i64 float,repeat
-    zchar[ 3  ] rootA
-    `crlf
-line`, match msg_type as len{
-""CRC32"":
-MetaDataX
-,
-} ,
-    f32
-A , char[
-0123456789 ] chars// " ++ [27880; 37322]%N ++ runes_of_ascii "
-`{ , }` , /// triple
-@calculatedFrom( ""a\""b""
-) string
-string_
-    `" ++ [233]%N ++ runes_of_ascii "` ,}
-")).
-Eval vm_compute in ("<<<M1557>>>" ++ check (runes_of_ascii "root
-    packet  // " ++ [27880; 37322]%N ++ runes_of_ascii "
-		crc {@lengthOf(
-    As
-
-    )
-@calculatedFrom(""\" ++ [233]%N ++ runes_of_ascii """)  zchar[ 4294967296
-] 
-MetaDataX	`doc`
-
-    ,  /// triple
-    	rootA 
-@calculatedFrom(""it's""	) , 
-@tag(65535	) @tag(  // c
-
-	7
-	)@tag( 00  
-      //
-  // c
-)
-
-    len
-
-@lengthOf( 
-A)
-    `two words`, 
-  // trailing space 
-	// " ++ [128512]%N ++ runes_of_ascii " emoji
-  string
-
-    rootA @lengthOf(
-
-    pack
-// trailing space 
-  //	t
-),  
-  // " ++ [128512]%N ++ runes_of_ascii " emoji
-
-// trailing space 
-  repeat
-    zchar , @calculatedFrom(""abc""  )@leftPad 
-( '\x00' 
-) @rightPad ( )
-    match x_y_z
-as	Z9_
-    {  ""it's""
-:	Logon 	 //x
-    ,
-    ""x y""
-:Packet ,""abc""
-:trueish 
-4294967296 	 // @lengthOf(
-    : repeatCount
-
-    """ ++ [128512]%N ++ runes_of_ascii """:x_y_z } 
-, char[
-
-    10 // @lengthOf(
-  ]
-stringy 
-`it's`
-
-,
-	@leftPad (  '\x00'
-)rootA  @lengthOf(
-
-    i64_ 
-)
-	,}	MetaData  falsey{
-	Packet
-
-repeatCount `tab	here`
-	,
-
-    } MetaData
-
-string_
-{	float64
-roots `line1
-line2`
-	,char
-
-As  //
-  	`
-`,zchar[
-	65535]
-
-    falsey 
-`a\` ,
-A  T
-,  _x  metadata ,
-} packet _x  // packet A { u8 x, }
-  {
-zchar[ 255 ]
-
-string_
-@lengthOf(
-        //	t
-		// @lengthOf(
-  u128)
-	`{ , }`  ,}
-    root  packet  Packet
-    {
-repeat // " ++ [128512]%N ++ runes_of_ascii " emoji
-    	lengthOf
-
-    ,}
-
-")).
-Eval vm_compute in ("<<<M316>>>" ++ check (runes_of_ascii "// `tick` ""quote"" 'q'
-packet crc { @tag(0 ) //x
-chars , i8i8
-@lengthOf( packetx ), repeat
-f32a
-    {
-match packetx as a1{
-    ""x y""
-:
-//
-// `tick` ""quote"" 'q'
-Packet, } ,}
-, @leftPad(
-'\x00' )
-uint8 int ,
-match float as a1 {
-    // `tick` ""quote"" 'q'
-    [4294967296
-    ]
-:// " ++ [27880; 37322]%N ++ runes_of_ascii "
-Packet
-    , } //
-, repeat zchar[ 007 ] zchar`tab	here`
-    , repeat
-// " ++ [27880; 37322]%N ++ runes_of_ascii "
-// a // b
-x
-    , }	packet
-string_
-    // c
-    { char[
-0123456789] a1
-, @calculatedFrom( ""a\\"" ) @tag( 42)
-@leftPad
-('\x00' ) options1
-    @calculatedFrom( """ ++ [28040; 24687]%N ++ runes_of_ascii """
-)`it's`	, repeat
-rootA// packet A { u8 x, }
-{
-    //
-    match Logon as Packet { [10 ,	255 , 0,
-007 ,
-""CRC32""
-, ""abc"" ] : len , """ ++ [28040; 24687]%N ++ runes_of_ascii """:	a1	, } , match leftPad as Header { 007:  As
-, 255: repeatCount , /// triple
-"""" // packet A { u8 x, }
-: matchKey //
-, [ 255 ,
-    3,	""abc"" , """", ""\n"" , 1
-, """"// " ++ [27880; 37322]%N ++ runes_of_ascii "
-,
-42//x
-] : pack ,
-}
-, }
-// @lengthOf(
-// `tick` ""quote"" 'q'
-, int
-{int64 chars , }// @lengthOf(
-, } 	 ")).
-Eval vm_compute in ("<<<M28>>>" ++ check (runes_of_ascii "options
-    { string_
-= false
-    ; falsey  = char[// " ++ [128512]%N ++ runes_of_ascii " emoji
-4294967296 ] ; } packet
-    zchar{match float as len { [ """ ++ [233]%N ++ runes_of_ascii "t" ++ [233]%N ++ runes_of_ascii """ ]:
-matchKey
-    , 3 : // " ++ [27880; 37322]%N ++ runes_of_ascii "
-u [ 4294967296
-, ""1"" ] :
-// `tick` ""quote"" 'q'
-// c
-zchar , } // c
-,} MetaData
-    // @lengthOf(
-    T {
-// c
-// a // b
-}	packet packetx  { uint16 uint8x @calculatedFrom( ""it's"" ) ,
-stringy { i16 crc
-`{ , }`	, }
-, zchar[ 00
-] x
-,
-    zchar{ uint64 tag , zchar
-f32a	`say ""hi""` , uint32 A `{ , }` , match _x as
-falsey
-{ [ 007// " ++ [128512]%N ++ runes_of_ascii " emoji
-,
-    """ ++ [128512]%N ++ runes_of_ascii """] :
-    matchKey// " ++ [128512]%N ++ runes_of_ascii " emoji
-[ 0123456789,3 ] : T
-// " ++ [128512]%N ++ runes_of_ascii " emoji
-// `tick` ""quote"" 'q'
-1: Foo ,
-}
-    ,// trailing space 
-} ,A ,
-    zchar[
-    // packet A { u8 x, }
-    4294967296 ] string_ @lengthOf( float ) ,match rootA as As
-    { [ ""it's"",
-255 , 0123456789 ,
-// packet A { u8 x, }
-//	t
-""" ++ [233]%N ++ runes_of_ascii "t" ++ [233]%N ++ runes_of_ascii """	, ""{,}"" ,	""abc""
-    , """ ++ [233]%N ++ runes_of_ascii "t" ++ [233]%N ++ runes_of_ascii """]:int, 4294967296 : tag , } , }
-")).
-Eval vm_compute in ("<<<M1383>>>" ++ check (runes_of_ascii "
-options{
-
-    StringPrefixLenType=u16
-; ArrayPrefixLenType
-=u32
-
-;
-
-    FixedStringPadFromLeft	=  true  ; FixedStringPadChar=	'0'  ;  } packet
-
-    Cancel
-    {}
-
-    packet
-
-Party
-    {
-    } packet
-	Logon 
-{}
-	packet  Ack {	} packet Logout{
-
-repeat InSym87
-
-    { InClordid94{
-
-string
-clOrdID
-,  }
-,  string 
-Px ,
-
-i16
-
-Qty 
-,
-    repeat
-
-InCount71 {	repeat Cancel
-
-,
-
-    uint16
-	Tail
-
-, char[
-
-    2 
-] x  , repeat 
-string
-
-    Ref  ,	}
-	, Cancel , }
-
-,
-} 
-root	packet  Order
-	{
-
-repeat	string
-	tag7
-
-,@leftPad(
-' '
-
-    )  char[
-
-3 ] 
-Px ,
-u8
-    Qty
-,match
-    Qty
-
-    as
-
-    Body
-    {
-
-    [
-	28, 
-62
-
-    ]  :
-
-    Logon
-, 
-148
-
-    :
-    Ack ,
-
-88
-
-    : 
-Party , 184 : Cancel ,} , u16  Note
-
-    @calculatedFrom( ""CR\
-C32""
-)
-,  }")).
-Eval vm_compute in ("<<<M52>>>" ++ check (runes_of_ascii "  MetaData
-    // " ++ [27880; 37322]%N ++ runes_of_ascii "
-    packetx { zchar[ 7 ] leftPad
-`// not a comment` ,	}	packet i64_{@calculatedFrom(
-"""" )
-// trailing space 
-// c
-@lengthOf(
-x_y_z ) @tag( 00
-)
-repeatCount
-    // packet A { u8 x, }
-    @calculatedFrom(""1"" ), } packet falsey { int16
-_x
-@calculatedFrom(	""it's"") , } // @lengthOf(
-root
-packet matchKey
-    {repeat u32  Pad  `" ++ [233]%N ++ runes_of_ascii "`, zchar[ 7 ]
-    leftPad
-,match chars as lengthOf
-{ 1 :
-o
-    42 : chars
-// trailing space 
-// c
-,
-}//x
-, repeat
-zchar[
-    255]
-a1, matchKey //
-Packet
-    // `tick` ""quote"" 'q'
-    ,
-f32
-    tag
-    ,
-// @lengthOf(
-// trailing space 
-@calculatedFrom(  ""a\""b"" ) @leftPad( ' ' ) @lengthOf(
-T) stringy
-@lengthOf( o) ,packetx  i64_ ,}
 /// triple
-")).
-Eval vm_compute in ("<<<M1625>>>" ++ check (runes_of_ascii "root packet matchKey {
-    match Foo as Z9_ {
-        // c
-        [007, 7, ""x y"", ""1""] : pack,
-        ""`tick`"" : u128,
-        ""a	b"" : msg_type,
-        [00, 65535] : a1,
-        ""it's"" : Foo,
-        // " ++ [128512]%N ++ runes_of_ascii " emoji
-        [""""] : u,
+//
+,255 :repeatCount , 00 :pack, 1 : trueish
+    , 7
+    : A }
+    ,
+T
+    {Z9_
+`
+` ,
+} ,
+    int16 o
+@calculatedFrom(
+""it's""
+) `line1
+line2`	, match zchar
+as As{ ""CRC32"" :	a1, 42: Header [ 10
+    //
+    ] : zchar // trailing space 
+,
+    }// " ++ [128512]%N ++ runes_of_ascii " emoji
+, @tag( 42 )repeat i64_{
+    // c
+    char[00 ] _x `{ , }` ,
+}
+,repeat //x
+char[] uint8x
+`crlf
+line` ,@leftPad
+(	'\x00'
+    ) @tag( 7 )
+    int32
+// a // b
+// @lengthOf(
+repeatCount
+    @calculatedFrom(
+""x y"" )
+`// not a comment` , u32 zchar
+    `
+` , repeat stringy { i8i8 lengthOf
+, } , // packet A { u8 x, }
+@calculatedFrom(  ""abc"" ) @lengthOf( tag ) @lengthOf( /// triple
+rootA )  char[3	] // c
+rootA`" ++ [233]%N ++ runes_of_ascii "` ,// c
+}MetaData crc
+{
+float32
+asx `" ++ [233]%N ++ runes_of_ascii "` ,	string i64_// " ++ [128512]%N ++ runes_of_ascii " emoji
+,
+    }
+root packet Packet
+    //
+    {charz @lengthOf( zchar) ,	f32
+    f32a `{ , }` // a // b
+, i64 matchKey @lengthOf( leftPad )
+    , string trueish, @leftPad (  '0')
+    // trailing space 
+    tag@lengthOf( // a // b
+string_ ) `doc` , match stringy
+// @lengthOf(
+// @lengthOf(
+as calculatedFrom
+    { [
+0123456789 ]: repeatCount
+//	t
+//
+,} ,// trailing space 
+char[
+3]
+Header ,
+int64 MetaDataX
+,	@leftPad( ) len { packetx @lengthOf(chars ) `` ,
+    }, @rightPad ( '0'
+    )  x_y_z
+,
+} options{ rootA
+// packet A { u8 x, }
+//x
+= '0'
+; Foo =char
+    ;A
+    = zchar[ 0123456789 ]
+// " ++ [27880; 37322]%N ++ runes_of_ascii "
+//x
+;packetx = """ ++ [233]%N ++ runes_of_ascii "t" ++ [233]%N ++ runes_of_ascii """
+float = true } //x")).
+Eval vm_compute in ("<<<M1528>>>" ++ check (runes_of_ascii "packet _x {
+    leftPad `it's`,
+    match Logon as matchKey {
+        ""packet"" : stringy,
+        3 : u,
+        //
+        ""1"" : Pad,
     },
+    float32 Z9_ @lengthOf(i8i8) `" ++ [233]%N ++ runes_of_ascii "`,
+    @tag(3)
+    match As as Pad {
+        """" : chars,
+        ""x y"" : i64_,
+    },
+    @calculatedFrom(""it's"")
+    @leftPad(' ')
+    zchar[0123456789] falsey,
+    match A as packetx {
+        [42] : matchKey,
+    },
+    @leftPad(' ')
+    match x as a1 {
+        ""packet"" : a1,
+        10 : pack,
+        ""{,}"" : u8x,
+        [007, 00] : trueish,
+        ""x y"" : pack,
+        """ ++ [233]%N ++ runes_of_ascii "t" ++ [233]%N ++ runes_of_ascii """ : matchKey,
+    },
+    @leftPad('0')
+    uint8x u,
+    zchar[3] u ``,
+    @rightPad(' ')
+    repeat _x ``,
+}
+
+MetaData Foo {
+    a1 Z9_,
+    options1 T,
+    u32 u8x `crlf
+        line`,
+    metadata falsey,
+    lengthOf x_y_z,
 }
 
 packet calculatedFrom {
-    msg_type {
-        T @calculatedFrom(""\n""),
-        float64 i8i8,
-        As `
-        `,
-        u32 rootA @lengthOf(float),
+    @tag(3)
+    string A,
+    match leftPad as a1 {
+        //	t
+        0123456789 : calculatedFrom,
     },
+    match crc as body {
+        00 : _x,
+    },
+    o @calculatedFrom(""x y""),
 }
 
-packet x_y_z {
-    @tag(0)
-    i64_ @lengthOf(MetaDataX),
+packet T {
 }
 
-packet A {
-    @calculatedFrom(""a\\"")
-    @calculatedFrom(""abc"")
-    _x u `say ""hi""`,
-}
+packet Logon {
+    @leftPad('\x00')
+    As @calculatedFrom(""a	b"") `line1
+        line2`,
+    pack lengthOf,
+}// `tick` ""quote"" 'q'")).
+Eval vm_compute in ("<<<M1723>>>" ++ check (runes_of_ascii "
 
-options {
-    // trailing space 
-    metadata = ""a\\"";// a // b
-}")).
-Eval vm_compute in ("<<<M1844>>>" ++ check (runes_of_ascii "// top
-    packet// c0
-    	float  // c1
-    { // c2
-  @rightPad// c3
-  (// c4
+  options // @lengthOf(
 
-)	// c5
-    rootA	// c6
-	@lengthOf(	// c7
-	trueish// c8
-	  )	// c9
-	,	// c10
-    	stringy// c11
-
-  @lengthOf(  // c12
-
-  matchKey 	 // c13
-	  ) // c14
-    ,// c15
-  char[ // c16
-	4294967296// c17
-    ] 	 // c18
-    pack // c19
-		@lengthOf(	// c20
-  uint8x // c21
-
-)  // c22
-  , // c23
-
-}  // c24
-	root 	 // c25
-packet 	 // c26
-
-	trueish // c27
-    	{	// c28
-
-repeat 	 // c29
-
-uint64// c30
-
-  u128 	 // c31
-      `line1
-line2`// c32
-  , // c33
-}  // c34")).
-Eval vm_compute in ("<<<M1477>>>" ++ check (runes_of_ascii "
-packet
-    leftPad // trailing space 
-      {
-
-@tag(	10
-
-    )  @tag(
-
-007 )@lengthOf(
-a1
-) 
-    // a // b
-//
-  repeat
-metadata
-    ,
-
-} 	 // " ++ [128512]%N ++ runes_of_ascii " emoji
-options
-	// @lengthOf(
-  	{lengthOf =""" ++ [128512]%N ++ runes_of_ascii """
-;
-    }	packet  T
-	// " ++ [27880; 37322]%N ++ runes_of_ascii "
-	{
-A
-
-{ 
-      //
-    	// `tick` ""quote"" 'q'
-
-	tag
-@calculatedFrom(	""abc""
-)
-
-,  } 
-,@lengthOf(  matchKey
-    )
-    string
-
-    Header	@lengthOf(
-
-    metadata)
-
-    ,
-
-leftPad
-    // trailing space 
-  @calculatedFrom(  ""a\""b"" ) `crlf
-line` ,
-
-    }
-")).
-Eval vm_compute in ("<<<M161>>>" ++ check (runes_of_ascii "packet rootA{ options1 _x , u64
-    Header , } packet lengthOf {
-    @rightPad ( ' '	)
-@lengthOf( u128 // trailing space 
-)	@calculatedFrom(	""a\""b"" )  A {string i64_	`it's`,
-//	t
-// trailing space 
-uint8
-body
-, match pack as u {
-// @lengthOf(
-// trailing space 
-00 : charz , 00: int ,3
-: falsey 255 :body
-    ,
-[0123456789 ] :x_y_z ,
-// a // b
-//
-}
-,
-} ,
-} MetaData chars{ u128
-    zchar , char[ 42  ]
-// a // b
-// a // b
-metadata
-    , }
-")).
-Eval vm_compute in ("<<<M306>>>" ++ check (runes_of_ascii "packet rootA { @tag(0123456789 ) options1 {int32 uint8x
-    `u8 x,`
-    , u8x
-//x
-// packet A { u8 x, }
-{
-    match Header as
-    metadata {[	10 ]
-: pack } ,
-    } , f64 // `tick` ""quote"" 'q'
-chars , }
-, @lengthOf( body ) u64
-// @lengthOf(
-//
-Z9_ , }
-MetaData repeatCount
-    {zchar[10 ] string_ , f64 A
-, u32 BodyLength , zchar[ 00 ] uint8x ,
-    trueish
-leftPad,char[ 65535  ] rootA	, }
-//	t
-")).
-Eval vm_compute in ("<<<M372>>>" ++ check (runes_of_ascii "// @lengthOf(
-MetaData leftPad { string	options1`say ""hi""` ,
-    //x
-    int16 metadata`" ++ [233]%N ++ runes_of_ascii "`,f32 i64_
-//	t
-// c
-, }  packet
-trueish { // c
-MetaDataX roots ,_x
-    a1 , match
-packetx as charz { 0
-: // c
-f32a ,
-} //
-, repeat body Logon , }	options { repeatCount=
-    int8
-charz // `tick` ""quote"" 'q'
-=	char[];  msg_type =""it's""	u
+{zchar
 =
-    007 Z9_
-    = uint32
-    //
-    }")).
-Eval vm_compute in ("<<<M323>>>" ++ check (runes_of_ascii "options{ }
-MetaData  string_ // `tick` ""quote"" 'q'
-{ u32
-matchKey `u8 x,`,
-    string  MetaDataX , uint8
-Logon, uint64 options1
-, char[ 00 ] len
-// `tick` ""quote"" 'q'
-// trailing space 
-`tab	here` , u8
-options1
-, }// a // b
-packet a1 { chars ,
+
+    char[]
+Z9_ =	'0'  ; 
+} options	{ asx
+=
 char[]
-i64_ @lengthOf(
-    // " ++ [27880; 37322]%N ++ runes_of_ascii "
-    stringy
-) ,char T,repeat i8 charz
-`a\`
-,
-}
-")).
-Eval vm_compute in ("<<<M1310>>>" ++ check (runes_of_ascii "
+
+}  root
 packet
-A
-	{
-
-u8 a
-	, } packet
-    B 
-{ u16 b
-,
-	} packet
-    C 
-{	u32 
-c,
-
-}
-	root
-    packet
-
-    M
-	{u16
-
-    Kc ,
-u16 Kb
-	, u16
-    Ka
-
-,
-match  Kc
-
-    as
-X
-	{9
-:A
-
-    ,
-10
-:B  , } ,match	Kb  as
-Y{	2
-: C
-,  1 :A
-
-,
-
-} ,  match	Ka
-    as
-Z {
-1 :
-B	, 
-}, A 
-,B
-, C
-,
-
-    }")).
-Eval vm_compute in ("<<<M1904>>>" ++ check (runes_of_ascii "  packet
-
-    i8i8
-
-{
-    repeat 
-char[
-
-    00 ]
-    Pad
-
-`a\`
-,@leftPad (
-'\x00' )
-	string
-a1
+    leftPad 
+{ T
 
 @lengthOf(
+f32a  //
+) , }	//
+  root 
+        //x
 
-tag )
-``
-,
-	float64
-    u128 @calculatedFrom(""1""
+	// @lengthOf(
+    packet
+calculatedFrom
+{ u
+
+    {//	t
+char[] // packet A { u8 x, }
+T
+    `" ++ [233]%N ++ runes_of_ascii "`, match
+    stringy	/// triple
+  as//	t
+  	chars 
+{ 
+[ 
+0123456789  ]
+:
+T,
+    // `tick` ""quote"" 'q'
+		// " ++ [27880; 37322]%N ++ runes_of_ascii "
+  }
+    ,
+uint16
+    a1
+
+    @lengthOf(x
+) ,
+	string
+
+chars
+    `two words` ,
+} ,@calculatedFrom(
+    ""x y""
+)
+char[]
+	    // " ++ [27880; 37322]%N ++ runes_of_ascii "
+    // " ++ [128512]%N ++ runes_of_ascii " emoji
+    body
+    @lengthOf(
+lengthOf 
+)
+    /// triple
+    ,
+@lengthOf(
+	A
+
+)
+	rootA
+,@lengthOf(
+i64_
+) // packet A { u8 x, }
+	repeat
+f32a  {	lengthOf 
+// " ++ [128512]%N ++ runes_of_ascii " emoji
+    charz// a // b
+		`" ++ [28040; 24687; 31867; 22411]%N ++ runes_of_ascii "` ,
+	} 
+    // packet A { u8 x, }
+  ,
+
+    match
+	tag
+as 
+      //x
+  //	t
+		T
+{	[ 3] 
+:
+falsey ,
+    }
+, 
+zchar[
+
+00
+] 
+charz@lengthOf( Pad
+
 )
 
     ,
 
-@lengthOf(
-x)	u128  @lengthOf(tag
-    ) 
-`" ++ [28040; 24687; 31867; 22411]%N ++ runes_of_ascii "` 
-,	int64
-
-    u,A //x
-  T  `say ""hi""`
-,} ")).
-Eval vm_compute in ("<<<M308>>>" ++ check (runes_of_ascii "options { pack// `tick` ""quote"" 'q'
-= 0123456789
+    @tag( 3 )
+lengthOf
+{
+i16 
+As , 
 }
-packet metadata { @leftPad ( ' ' ) stringy
-@lengthOf( _x )
-    , repeat	u8
-int
-    `{ , }` ,
-@leftPad //	t
-('0' ) repeat char msg_type `it's`,
-} MetaData x_y_z { // trailing space 
+    ,
+}
+
+root
+packet body
+
+{
+	}")).
+Eval vm_compute in ("<<<M1678>>>" ++ check (runes_of_ascii "options {
+    StringPrefixLenType = u64;
+    ArrayPrefixLenType = u32;
+    FixedStringPadFromLeft = false;
+}
+
+packet Party {
+    zchar[7] OrderId,
+    InTail6 {
+        repeat char[1] msgKind,
+        char[3] Tail,
+        char[3] Flags,
+        i16 tag7,
+    },
+    @rightPad('0')
+    char[12] clOrdID,
+}
+
+packet Quote {
+    @leftPad('0')
+    char[11] price,
+    repeat InCount7 {
+        i32 x,
+        Party,
+        u8 Ref,
+        u8 tag7,
+    },
+    char[] seqNo,
+    Party,
+}
+
+packet Logon {
+    @rightPad('\x00')
+    char[5] Note,
+    i16 sym,
+    InPrice72 {
+        char[9] Ref,
+        zchar[1] venue,
+    },
+    char[] clOrdID,
+}
+
+root packet Reject {
+    repeat Logon,
+    @leftPad(' ')
+    char[4] seqNo,
+    zchar[5] Acct,
+    u32 x,
+    u16 f1 @lengthOf(Body),
+    match x as Body {
+        [169, 74] : Quote,
+        45 : Party,
+        7 : Logon,
+    },
 }")).
-Eval vm_compute in ("<<<M1836>>>" ++ check (runes_of_ascii "root packet int {
-    f32a @calculatedFrom(""packet"") `
-    `,
+Eval vm_compute in ("<<<M209>>>" ++ check (runes_of_ascii "packet calculatedFrom { // a // b
+string charz
+`two words`
+//	t
+//x
+, } packet stringy {
+@lengthOf(msg_type
+)	crc
+    // " ++ [128512]%N ++ runes_of_ascii " emoji
+    , @leftPad
+(	'0')crc @lengthOf(
+u128 //	t
+) ,@leftPad(
+    ' '
+)match
+x_y_z as
+rootA { [// @lengthOf(
+3 ,255 ] : int
+    ""1"": o ,// a // b
+10:tag
+, // c
+10// " ++ [128512]%N ++ runes_of_ascii " emoji
+: Header
+    ,3 :
+a1,""" ++ [128512]%N ++ runes_of_ascii """ :
+packetx
+    , }
+// packet A { u8 x, }
+// packet A { u8 x, }
+, match
+// " ++ [27880; 37322]%N ++ runes_of_ascii "
+// a // b
+o as x//x
+{  ""a	b"" : u8x ,} ,  @rightPad () repeat
+u packetx
+,
+    T // " ++ [27880; 37322]%N ++ runes_of_ascii "
+,repeat
+Logon ,	T{repeat
+x_y_z , // a // b
+i8 crc
+`two words` ,
+char[] calculatedFrom
+    @calculatedFrom(""x y""
+) , } , roots calculatedFrom,
+@lengthOf(
+asx)  repeat x_y_z{ T
+matchKey, } , }
+options { float
+=char[1 ]
+    ;
+    msg_type // c
+=i8 x =
+//
+// `tick` ""quote"" 'q'
+zchar[ 7] ; f32a =""\n""}
+")).
+Eval vm_compute in ("<<<M93>>>" ++ check (runes_of_ascii "packet float { char[]
+    u8x
+@lengthOf( roots ) ,
+}MetaData leftPad	{ string
+    // `tick` ""quote"" 'q'
+    a1, }root
+packet // " ++ [27880; 37322]%N ++ runes_of_ascii "
+pack { falsey,
+    /// triple
+    match Logon
+as // " ++ [128512]%N ++ runes_of_ascii " emoji
+trueish
+{""packet""
+    : Foo ,"""" : len, 0123456789: i64_ , ""it's"" : packetx
+    ,
+    255
+    : len
+, }
+    , repeat
+As As `" ++ [233]%N ++ runes_of_ascii "` , @tag( 3  ) uint32 a1
+, repeat  zchar[ 4294967296]
+pack	,@leftPad (' ' )  zchar  @lengthOf( string_ ) `// not a comment` , repeat int ,
+repeat
+i8i8 // " ++ [27880; 37322]%N ++ runes_of_ascii "
+{ u64
+    // a // b
+    tag `say ""hi""`	,u8x , char trueish  , repeat // packet A { u8 x, }
+float32
+    stringy `line1
+line2` ,} ,match o
+as	o { 007  : float },
+// packet A { u8 x, }
+// c
+repeat
+    Pad ,
+// " ++ [27880; 37322]%N ++ runes_of_ascii "
+// trailing space 
+}")).
+Eval vm_compute in ("<<<M1662>>>" ++ check (runes_of_ascii "options {
+}
+
+packet u8x {
+    string uint8x @calculatedFrom(""{,}"") `crlf
+    line`,
+}
+
+MetaData falsey {
+    Logon packetx `tab	here`,
+}
+
+root packet o {
+    falsey @calculatedFrom(""" ++ [28040; 24687]%N ++ runes_of_ascii """),
+    @tag(0123456789)
+    // `tick` ""quote"" 'q'
+    char[0123456789] u128 @calculatedFrom(""{,}""),
+    @tag(00)
+    @lengthOf(stringy)
+    @tag(4294967296)
+    rootA Header,
+    @lengthOf(As)
+    repeat leftPad `// not a comment`,
+    i8 leftPad @calculatedFrom(""""),
+    @tag(10)
+    zchar[007] packetx @lengthOf(u8x) `" ++ [28040; 24687; 31867; 22411]%N ++ runes_of_ascii "`,
+}
+
+packet options1 {
+    //	t
+    // trailing space 
+    falsey {
+        //	t
+        zchar[3] roots,
+        u32 Header,
+    },// a // b
+}")).
+Eval vm_compute in ("<<<M1114>>>" ++ check (runes_of_ascii "// top
+packet
+    // c0
+float
+    // c1
+{
+    // c2
+@rightPad
+    // c3
+(
+    // c4
+)
+    // c5
+rootA
+    // c6
+@lengthOf(
+    // c7
+trueish
+    // c8
+)
+    // c9
+,
+    // c10
+stringy
+    // c11
+@lengthOf(
+    // c12
+matchKey
+    // c13
+)
+    // c14
+,
+    // c15
+char[
+    // c16
+4294967296
+    // c17
+]
+    // c18
+pack
+    // c19
+@lengthOf(
+    // c20
+uint8x
+    // c21
+)
+    // c22
+,
+    // c23
+}
+    // c24
+root
+    // c25
+packet
+    // c26
+trueish
+    // c27
+{
+    // c28
+repeat
+    // c29
+uint64
+    // c30
+u128
+    // c31
+`line1
+line2`
+    // c32
+,
+    // c33
+}
+    // c34
+")).
+Eval vm_compute in ("<<<M1358>>>" ++ check (runes_of_ascii "options {
+    StringPrefixLenType = u8;
+    ArrayPrefixLenType = u8;
+    FixedStringPadFromLeft = false;
+    FixedStringPadChar = ' ';
+}
+packet Ack {
+    char[] tag7,
+}
+packet Reject {
+    InSym61 {
+        repeat Ack,
+        zchar[4] f1,
+    },
+}
+packet Logout {
+    char[4] clOrdID,
+}
+root packet Cancel {
+    @leftPad(' ') char[10] price,
+    u8 x,
+    u32 venue @lengthOf(Body),
+    match x as Body {
+        [92, 175] : Logout,
+        26 : Reject,
+        144 : Ack,
+    },
+    u16 count @calculatedFrom(""CR\
+C32""),
+}
+")).
+Eval vm_compute in ("<<<M1524>>>" ++ check (runes_of_ascii "  // top
+  MetaData
+    // c0
+    uint8x 
+// c1
+    {
+// c2
+char[] 
+// c3
+  	f32a
+    // c4
+  `// not a comment` 
+    // c5
+  ,
+	// c6
+	float32 
+// c7
+
+roots 
+// c8
+    ,
+    // c9
+  char[ 
+// c10
+	7
+	// c11
+  ] 
+    // c12
+u8x
+// c13
+  ,
+    // c14
+    zchar[
+	// c15
+  10 
+// c16
+
+  ] 
+    // c17
+    f32a 
+        // c18
+
+,  
+      // c19
+
+	u64
+// c20
+	pack
+// c21
+	, 
+// c22
+    u16 
+// c23
+pack
+    // c24
+      , 
+      // c25
+  } 
+// c26
+ 
+")).
+Eval vm_compute in ("<<<M0>>>" ++ check (runes_of_ascii "packet leftPad// trailing space 
+{@tag( 10 )
+    @tag( 007 ) @lengthOf(	a1 )
+// a // b
+//
+repeat metadata
+    ,
+} // " ++ [128512]%N ++ runes_of_ascii " emoji
+options
+    // @lengthOf(
+    { lengthOf
+= """ ++ [128512]%N ++ runes_of_ascii """	;
+}  packet T
+    // " ++ [27880; 37322]%N ++ runes_of_ascii "
+    { A
+{
+//
+// `tick` ""quote"" 'q'
+tag@calculatedFrom(""abc"")
+, }
+    , @lengthOf( matchKey
+    ) string	Header @lengthOf( metadata
+) ,leftPad
+    // trailing space 
+    @calculatedFrom(
+""a\""b"" )`crlf
+line`,}
+")).
+Eval vm_compute in ("<<<M1823>>>" ++ check (runes_of_ascii "packet a1 {
+    @calculatedFrom(""`tick`"")
+    uint32 charz `crlf
+        line`,
+    // c
+    //x
+    a1 `tab	here`,
 }
 
 options {
-    rootA = ""\" ++ [233]%N ++ runes_of_ascii """;
+    // " ++ [27880; 37322]%N ++ runes_of_ascii "
+    // " ++ [128512]%N ++ runes_of_ascii " emoji
+    stringy = 255;
+    metadata = 4294967296
+    pack = string;
+    crc = string;
 }
 
-packet i8i8 {
-    // trailing space 
-    uint8 uint8x @lengthOf(string_),
-    i32 tag @lengthOf(Logon),
+root packet crc {
+    @tag(42)
+    @calculatedFrom(""abc"")
+    @rightPad('0')
+    u128 u8x,
+    @lengthOf(len)
+    uint16 int,
 }")).
-Eval vm_compute in ("<<<M1537>>>" ++ check (runes_of_ascii "packet A {
-    match k as n {
-        [
-            ""a"", ""bb"", ""c c"", ""d"", ""e"",
-            ""f"", ""g"", ""h"", ""i"", ""j"",
-            ""k""
-        ] : B,
-        2 : C,
+Eval vm_compute in ("<<<M1696>>>" ++ check (runes_of_ascii "
+packet
+
+Foo // " ++ [128512]%N ++ runes_of_ascii " emoji
+	{
+@lengthOf( f32a 
+)
+char[ 
+0123456789	//	t
+  ] float 
+`u8 x,`
+
+, } packet	// a // b
+i64_ 
+{
+
+@lengthOf(
+
+    stringy 	 // packet A { u8 x, }
+    	) 
+char[]int
+@calculatedFrom(
+""{,}"")
+    ,@tag(
+007
+)  //
+      int64
+
+    stringy `" ++ [233]%N ++ runes_of_ascii "` ,char[] A	@calculatedFrom(""\" ++ [233]%N ++ runes_of_ascii """
+
+)
+	`doc`
+	, // " ++ [27880; 37322]%N ++ runes_of_ascii "
+
+  }
+")).
+Eval vm_compute in ("<<<M205>>>" ++ check (runes_of_ascii "  root packet
+    chars{ string T `say ""hi""`
+, @tag(
+    1  ) body { repeat o { f64 Packet @calculatedFrom( ""a\\"") ,  } , }	,
+} packet pack
+// @lengthOf(
+// a // b
+{
+@tag( 4294967296 // `tick` ""quote"" 'q'
+) repeat char[]
+    Logon
+    // trailing space 
+    , repeat
+BodyLength len ,
+    // c
+    }")).
+Eval vm_compute in ("<<<M1856>>>" ++ check (runes_of_ascii "packet MDSnapshotZZ {
+    u8 a,
+}
+
+packet OrderACK {
+    u16 b,
+}
+
+packet HTTPServerInfo {
+    string s,
+}
+
+root packet FIXMsg {
+    u8 KType,
+    MDSnapshotZZ,
+    repeat OrderACK,
+    match KType as Body {
+        1 : HTTPServerInfo,
+        2 : OrderACK,
     },
 }")).
-Eval vm_compute in ("<<<M421>>>" ++ check (runes_of_ascii "packet uint8x
-{ match pack
-    as msg_type msg_type	{
-    0123456789 :	float
-}
+Eval vm_compute in ("<<<M1690>>>" ++ check (runes_of_ascii "packet _x {	repeat
+char[] matchKey	// " ++ [128512]%N ++ runes_of_ascii " emoji
+
 ,
-} packet //	t
-a1
-    { } options {packetx
-    = '\x00'	; u128= ""a	b""  ; }
+@leftPad ()
+
+x_y_z /// triple
+    T
+,
+
+Pad{
+zchar[	1] rootA 
+`tab	here` 
+,},  Foo 
+@calculatedFrom( """"
+    // trailing space 
+  )
+
+,}  packet	MetaDataX
+    {float64
+
+    body
+, }
+
 ")).
+Eval vm_compute in ("<<<M1880>>>" ++ check (runes_of_ascii "packet f32a {
+    @rightPad('0')
+    @lengthOf(BodyLength)
+    uint8 Foo ``,
+    //x
+    char[] options1 @calculatedFrom(""it's""),
+    @tag(255)
+    uint64 Header @calculatedFrom(""abc"") `
+        `,
+}")).
+Eval vm_compute in ("<<<M1733>>>" ++ check (runes_of_ascii "packet
+	A { match
+
+    k
+
+    as n { [
+
+    ""a"" ,  ""bb""	,
+
+007 ,
+""d""  , ""e""  , 66 ,
+""g""  ,
+""h""  ,  9
+
+,
+""j""
+
+    ,
+
+    ""k""
+, 12 ]
+    :B
+
+    , 2
+:
+C
+	}
+, }
+")).
+Eval vm_compute in ("<<<M224>>>" ++ check (runes_of_ascii "root packet
+T
+{ zchar[ // a // b
+0123456789
+] // c
+uint8x , }  root packet metadata { @rightPad( )  x_y_z @lengthOf( stringy )
+// `tick` ""quote"" 'q'
+// c
+, }")).
 Eval vm_compute in ("<<<M55>>>" ++ check (runes_of_ascii "MetaData x_y_z
 //x
 //x
@@ -858,7 +859,7 @@ u8;
 // " ++ [27880; 37322]%N ++ runes_of_ascii "
 // a // b
 } // trailing space ")).
-Eval vm_compute in ("<<<M496>>>" ++ check (runes_of_ascii "packet uint8x
+Eval vm_compute in ("<<<M526>>>" ++ check (runes_of_ascii "packet uint8x
 { match pack
     as msg_type	{
     0123456789 :	float
@@ -867,10 +868,32 @@ Eval vm_compute in ("<<<M496>>>" ++ check (runes_of_ascii "packet uint8x
 } packet //	t
 a1
     { } options {packetx
-    = = '\x00'	; u128= ""a	b""  ; }
+    = '\x00'	; u128= ""a	b""  ; ; }
 ")).
-Eval vm_compute in ("<<<M407>>>" ++ check (runes_of_ascii "packet uint8x
-{ pack match
+Eval vm_compute in ("<<<M427>>>" ++ check (runes_of_ascii "packet uint8x
+{ match pack
+    as msg_type	0123456789
+    { :	float
+}
+,
+} packet //	t
+a1
+    { } options {packetx
+    = '\x00'	; u128= ""a	b""  ; }
+")).
+Eval vm_compute in ("<<<M445>>>" ++ check (runes_of_ascii "packet uint8x
+{ match pack
+    as msg_type	{
+    0123456789 :	float
+
+,
+} packet //	t
+a1
+    { } options {packetx
+    = '\x00'	; u128= ""a	b""  ; }
+")).
+Eval vm_compute in ("<<<M410>>>" ++ check (runes_of_ascii "packet uint8x
+{ match 
     as msg_type	{
     0123456789 :	float
 }
@@ -880,269 +903,212 @@ a1
     { } options {packetx
     = '\x00'	; u128= ""a	b""  ; }
 ")).
-Eval vm_compute in ("<<<M400>>>" ++ check (runes_of_ascii "packet uint8x
- match pack
-    as msg_type	{
-    0123456789 :	float
-}
-,
-} packet //	t
-a1
-    { } options {packetx
-    = '\x00'	; u128= ""a	b""  ; }
-")).
-Eval vm_compute in ("<<<M408>>>" ++ check (runes_of_ascii "packet uint8x
-{ i8 pack
-    as msg_type	{
-    0123456789 :	float
-}
-,
-} packet //	t
-a1
-    { } options {packetx
-    = '\x00'	; u128= ""a	b""  ; }
-")).
-Eval vm_compute in ("<<<M1552>>>" ++ check (runes_of_ascii "
-packet
-
-    A{  match
-
-k
-as
-n{ [
-
-    1, 
-22 , 
-""c c""
-,  4
-
-    ,
-
-    5 
-,
-    ""f""
-    ,
-7
-
-    , 
-8
-    ]:B
-
-2:  C 
-} ,
-
-    }
-
-")).
-Eval vm_compute in ("<<<M722>>>" ++ check (runes_of_ascii "// @lengthOf(
+Eval vm_compute in ("<<<M664>>>" ++ check (runes_of_ascii "// @lengthOf(
 packet i8i8 { u128 o , }
 options { MetaDataX = true;
-    BodyLength =x_y_z ""packet""= 007
+    BodyLength =""packet"" packet= 007
 crc //x
 = ""abc"" ;
     msg_type =
 i16 }")).
-Eval vm_compute in ("<<<M706>>>" ++ check (runes_of_ascii "// @lengthOf(
+Eval vm_compute in ("<<<M663>>>" ++ check (runes_of_ascii "// @lengthOf(
 packet i8i8 { u128 o , }
-options { MetaDataX = ;
+options { MetaDataX = true;
     BodyLength =""packet"" x_y_z= 007
 crc //x
 = ""abc"" ;
     msg_type =
-i16 }")).
-Eval vm_compute in ("<<<M1845>>>" ++ check (runes_of_ascii "
+i16 ")).
+Eval vm_compute in ("<<<M519>>>" ++ check (runes_of_ascii "packet uint8x
+{ match pack
+    as msg_type	{
+    0123456789 :	float
+}
+,
+} packet //	t
+a1
+    { } options {packetx
+    = '\x00'	; u128")).
+Eval vm_compute in ("<<<M1746>>>" ++ check (runes_of_ascii "
+packet
 
-  options
-{
+    A { u16 len@lengthOf(
+body
+) `a
+    b
+  c`
 
-    lengthOf
-=
-    3	trueish
-    // packet A { u8 x, }
-	// trailing space 
-  	=  true	;
-	calculatedFrom=
-007
+, u32
+crc @calculatedFrom( ""CRC32"" )	`a
+    b
+  c` 
+,string
 
-;  } ")).
-Eval vm_compute in ("<<<M1471>>>" ++ check (runes_of_ascii "packet
-	B  {
-	u8  a ,
-	}
+body
 
-root 
-packet  P  {
-u8	K
-, u64
-    L
-@lengthOf( Body  )
-
-, match	K
-
-as	Body{
-	1:
-B
-    , 
-}, }
+,}
 
 ")).
-Eval vm_compute in ("<<<M1149>>>" ++ check (runes_of_ascii "MetaData leftPad { chars // c
-MetaDataX , } packet repeatCount { char[ 255 ] uint8x `" ++ [233]%N ++ runes_of_ascii "` , } MetaData pack { As Foo , }")).
-Eval vm_compute in ("<<<M1181>>>" ++ check (runes_of_ascii "MetaData leftPad { chars MetaDataX , } packet repeatCount { char[ 255 ] uint8x `" ++ [233]%N ++ runes_of_ascii "` , } MetaData pack { // c
-As Foo , }")).
-Eval vm_compute in ("<<<M894>>>" ++ check (runes_of_ascii "packet A {
+Eval vm_compute in ("<<<M34>>>" ++ check (runes_of_ascii "options {
+Logon = 0 } options { msg_type = 3
+    MetaDataX =
+    // " ++ [128512]%N ++ runes_of_ascii " emoji
+    int8
+    uint8x=""""
+    ;
+    As = '0' }")).
+Eval vm_compute in ("<<<M1165>>>" ++ check (runes_of_ascii "MetaData leftPad { chars MetaDataX , } packet repeatCount { char[ 255 // c
+] uint8x `" ++ [233]%N ++ runes_of_ascii "` , } MetaData pack { As Foo , }")).
+Eval vm_compute in ("<<<M907>>>" ++ check (runes_of_ascii "packet A {
   match k as n {
-    [""a"", ""bb"", ""c c"", ""d"", ""e"", ""f"", ""g"", ""h"", ""i"", ""j"", ""k""] : B
+    [""a"", ""bb"", ""c c"", ""d"", ""e"", ""f"", ""g"", ""h"", ""i"", ""j"", ""k"", ""l""] : B
     2 : C
   },
 }")).
-Eval vm_compute in ("<<<M909>>>" ++ check (runes_of_ascii "packet A {
+Eval vm_compute in ("<<<M315>>>" ++ check (runes_of_ascii "packet Foo{ tag roots ,
+    // `tick` ""quote"" 'q'
+    i64_, @calculatedFrom( ""packet"" ) uint32 MetaDataX
+, }
+")).
+Eval vm_compute in ("<<<M931>>>" ++ check (runes_of_ascii "packet A {
+    u16 len @lengthOf(body) `
+`,
+    u32 crc @calculatedFrom(""CRC32"") `
+`,
+    string body,
+}")).
+Eval vm_compute in ("<<<M884>>>" ++ check (runes_of_ascii "packet A {
   match k as n {
-    [1, ""bb"", 007, ""d"", 5, ""f"", 7, ""h"", 9, ""j"", 11, ""l""] : B
+    [""a"", 22, ""c c"", 4, ""e"", 66, ""g"", 8, ""i"", 10] : B,
     2 : C
   },
 }")).
-Eval vm_compute in ("<<<M896>>>" ++ check (runes_of_ascii "packet A {
+Eval vm_compute in ("<<<M1>>>" ++ check (runes_of_ascii "MetaData  crc {  Pad T
+, zchar[
+    0123456789
+    ] a1 ,int8 trueish// c
+, } packet float{ }
+")).
+Eval vm_compute in ("<<<M841>>>" ++ check (runes_of_ascii "packet A {
   match k as n {
-    [1, ""bb"", 007, ""d"", 5, ""f"", 7, ""h"", 9, ""j"", 11] : B
+    [""a"", ""bb"", ""c c"", ""d"", ""e"", ""f"", ""g""] : B,
     2 : C
   },
 }")).
-Eval vm_compute in ("<<<M905>>>" ++ check (runes_of_ascii "packet A {
-  match k as n {
-    [1, 22, 007, 4, 5, 66, 7, 8, 9, 10, 11, 12] : B
-    2 : C
-  },
-}")).
-Eval vm_compute in ("<<<M635>>>" ++ check (runes_of_ascii "
-packet
-    asx {'1'match u128 as lengthOf
-{
-//	t
-// `tick` ""quote"" 'q'
-255 : x ,
-    } ,	}")).
-Eval vm_compute in ("<<<M633>>>" ++ check (runes_of_ascii "
-packet
-    asx {match u128 as `lengthOf
-{
-//	t
-// `tick` ""quote"" 'q'
-255 : x ,
-    } ,	}")).
-Eval vm_compute in ("<<<M587>>>" ++ check (runes_of_ascii "
+Eval vm_compute in ("<<<M644>>>" ++ check (runes_of_ascii "
 packet
     asx {match u128 as lengthOf
-
+{
 //	t
 // `tick` ""quote"" 'q'
-255 : x ,
+255 : x" ++ [178]%N ++ runes_of_ascii " ,
     } ,	}")).
-Eval vm_compute in ("<<<M1585>>>" ++ check (runes_of_ascii "packet A {
-    match k as n {
-        [22, 4, ""a"", ""c c""] : B,
-        2 : C,
-    },
-}")).
-Eval vm_compute in ("<<<M832>>>" ++ check (runes_of_ascii "packet A {
-  match k as n {
-    [""a"", 22, ""c c"", 4, ""e"", 66] : B,
-    2 : C
-  },
-}")).
-Eval vm_compute in ("<<<M835>>>" ++ check (runes_of_ascii "packet A {
-  match k as n {
-    [1, 22, ""c c"", 4, 5, ""f""] : B
-    2 : C
-  },
-}")).
-Eval vm_compute in ("<<<M1700>>>" ++ check (runes_of_ascii "packet A {
-    B b `a
-    b`,
-    B `a
-    b`,
-    repeat B bs `a
-    b`,
-}")).
-Eval vm_compute in ("<<<M797>>>" ++ check (runes_of_ascii "packet A {
-  match k as n {
-    [""a"", ""bb"", 007] : B,
-    2 : C
-  },
-}")).
-Eval vm_compute in ("<<<M942>>>" ++ check (runes_of_ascii "packet A {
-    B b `a
-
-b`,
-    B `a
-
-b`,
-    repeat B bs `a
-
-b`,
-}")).
-Eval vm_compute in ("<<<M1126>>>" ++ check (runes_of_ascii "// top
-MetaData
-    // c0
-u
-    // c1
+Eval vm_compute in ("<<<M607>>>" ++ check (runes_of_ascii "
+packet
+    asx {match u128 as lengthOf
 {
-    // c2
-}
-    // c3
-")).
-Eval vm_compute in ("<<<M1719>>>" ++ check (runes_of_ascii "root
+//	t
+// `tick` ""quote"" 'q'
+255 : x 
+    } ,	}")).
+Eval vm_compute in ("<<<M865>>>" ++ check (runes_of_ascii "packet A {
+  match k as n {
+    [1, 22, 007, 4, 5, 66, 7, 8, 9] : B,
+    2 : C
+  },
+}")).
+Eval vm_compute in ("<<<M1482>>>" ++ check (runes_of_ascii "  packet roots{
+    }MetaData
 
-    packet
-
-    P
+metadata
     {
-
-    string s
+	asx 
+matchKey,uint64
+rootA
     ,
-	} ")).
-Eval vm_compute in ("<<<M1198>>>" ++ check (runes_of_ascii "
-// c
-packet body { i32 f32a `{ , }` , } options { }")).
-Eval vm_compute in ("<<<M1079>>>" ++ check (runes_of_ascii "packet A { u8 x, } // a
-// b
-packet B {} // c
-// d")).
-Eval vm_compute in ("<<<M921>>>" ++ check (runes_of_ascii "MetaData M {
-    u8 x `a
-b`,
-    T t `a
-b`,
-}")).
-Eval vm_compute in ("<<<M1792>>>" ++ check (runes_of_ascii "options
-{ int = char[] ; }
-        //
-")).
-Eval vm_compute in ("<<<M946>>>" ++ check (runes_of_ascii "root packet A {
-    u8 x `a
 
-b`,
 }")).
-Eval vm_compute in ("<<<M36>>>" ++ check (runes_of_ascii "// c
-packet asx  {} /// triple")).
-Eval vm_compute in ("<<<M83>>>" ++ check (runes_of_ascii "
-options{ options1 =	7 ;
-}
+Eval vm_compute in ("<<<M1251>>>" ++ check (runes_of_ascii "packet
+Inner
+	{u8	a 
+,
+} root
+	packet 
+P
+{ Inner	ref_obj,  u8	x
+,
+
+    }
+
 ")).
-Eval vm_compute in ("<<<M1848>>>" ++ check (runes_of_ascii "root packet msg_type {
+Eval vm_compute in ("<<<M1483>>>" ++ check (runes_of_ascii "
+
+  packet
+    A
+    {match k
+
+    as
+n	{[
+""a""
+	]	: 
+B
+	,
+2 
+:	C  } ,	}
+")).
+Eval vm_compute in ("<<<M42>>>" ++ check (runes_of_ascii "
+packet roots
+    { len leftPad `// not a comment`	,} packet packetx{}")).
+Eval vm_compute in ("<<<M1438>>>" ++ check (runes_of_ascii "root packet P {
+    u16 a,
+    u32 Sum @calculatedFrom(""CRC32""),
 }")).
-Eval vm_compute in ("<<<M1107>>>" ++ check (runes_of_ascii "MetaData tag // c
+Eval vm_compute in ("<<<M2>>>" ++ check (runes_of_ascii "root
+// trailing space 
+// " ++ [27880; 37322]%N ++ runes_of_ascii "
+packet
+u{  } // trailing space ")).
+Eval vm_compute in ("<<<M930>>>" ++ check (runes_of_ascii "packet A {
+    B b `
+`,
+    B `
+`,
+    repeat B bs `
+`,
+}")).
+Eval vm_compute in ("<<<M1199>>>" ++ check (runes_of_ascii "packet // c
+body { i32 f32a `{ , }` , } options { }")).
+Eval vm_compute in ("<<<M654>>>" ++ check (runes_of_ascii "// @lengthOf(
+packet i8i8 { u128 o , }
+options {")).
+Eval vm_compute in ("<<<M212>>>" ++ check (runes_of_ascii "packet
+    MetaDataX {i16 u128`" ++ [233]%N ++ runes_of_ascii "` , //x
+}")).
+Eval vm_compute in ("<<<M325>>>" ++ check (runes_of_ascii "packet charz { } // packet A { u8 x, }")).
+Eval vm_compute in ("<<<M1916>>>" ++ check (runes_of_ascii "packet
+
+A{ u8
+
+x `d `
+,	// c 
+
+	}
+")).
+Eval vm_compute in ("<<<M988>>>" ++ check (runes_of_ascii "packet A {
+ u8 x `d" ++ [160]%N ++ runes_of_ascii "`, // c" ++ [160]%N ++ runes_of_ascii "
+}")).
+Eval vm_compute in ("<<<M655>>>" ++ check (runes_of_ascii "// @lengthOf(
+packet i8i8 {")).
+Eval vm_compute in ("<<<M286>>>" ++ check (runes_of_ascii " // `tick` ""quote"" 'q'")).
+Eval vm_compute in ("<<<M20>>>" ++ check (runes_of_ascii "packet MetaDataX { }")).
+Eval vm_compute in ("<<<M981>>>" ++ check (runes_of_ascii "packet A {
+}
+// c" ++ [12288]%N)).
+Eval vm_compute in ("<<<M1074>>>" ++ check (runes_of_ascii "MetaData M {
+}// c")).
+Eval vm_compute in ("<<<M1228>>>" ++ check (runes_of_ascii "packet x // c
 { }")).
-Eval vm_compute in ("<<<M95>>>" ++ check (runes_of_ascii "
-packet  Logon {}
-")).
-Eval vm_compute in ("<<<M1046>>>" ++ check (runes_of_ascii "packet A {
-}
-// c" ++ [8203]%N)).
-Eval vm_compute in ("<<<M1044>>>" ++ check (runes_of_ascii "packet A {
-}// c" ++ [8203]%N)).
-Eval vm_compute in ("<<<M297>>>" ++ check (runes_of_ascii "// " ++ [128512]%N ++ runes_of_ascii " emoji
-
-
-")).
+Eval vm_compute in ("<<<M1738>>>" ++ check (runes_of_ascii "packet As {
+}")).
 Eval vm_compute in ("<<<M1015>>>" ++ check (runes_of_ascii "// c" ++ [8233]%N)).
+Eval vm_compute in ("<<<M735>>>" ++ check ([0]%N)).
